@@ -42,7 +42,20 @@ def gen_case(r, idx, tmpdir):
     for _ in range(nev):
         nodes = [(p, n) for p, n in tree_nodes(truth) if p]
         k = r.below(4)
-        if k <= 1 and nodes:
+        leafs = [(p, n) for p, n in nodes if not n.ch]
+        if k <= 1 and leafs and r.chance(1, 5):
+            # moved: the node is announced at another address first (no loss reported yet), THEN its old interface reports the old
+            # local address lost, naming the node's unique id: the board named by the unique id is lost (wherever it is stored now)
+            p, n = r.choice(leafs); par = find_path(truth, p[:-1])
+            par.ch = [c for c in par.ch if c is not n]
+            ifs = [(q, m) for q, m in tree_nodes(truth) if m.iface() and len(q) < (2 if n.iface() else 3)]
+            q, m = r.choice(ifs); ls = [c.local for c in m.ch]; l = r.range(1, 250)
+            while l in ls or (q == p[:-1] and l == n.local): l = l % 250 + 1
+            n2 = Node(n.uid, l); m.ch.append(n2); addrs.add(q + (l,))
+            steps.append({"cmd": "sim_up %s 8d %s" % (path_hex(q), hx([r.below(256), l] + n.uid)), "what": "relogin", "ack": (q,), "truth": simgen.truth_of(truth, cfg)})
+            m.ch = [c for c in m.ch if c is not n2]
+            steps.append({"cmd": "sim_up %s 8c %s" % (path_hex(p[:-1]), hx([r.below(256), n.local] + n.uid)), "what": "lost", "ack": (p[:-1],), "unknown_iface_lost": False})
+        elif k <= 1 and nodes:
             # lost: prefer interfaces with children now and then
             withch = [(p, n) for p, n in nodes if n.ch]
             p, n = r.choice(withch) if withch and r.chance(1, 2) else r.choice(nodes)
